@@ -53,6 +53,19 @@ CLAIMED = {
         'technique': 'Lean 4 proof (spec lemmas + induction on matrix powers + refinement) + differential correspondence of sparse matrices',
         'design': '4/C13',
     },
+    'C19': {
+        'text': 'Proof (partial, by the property\'s own standard): over the cache model (one LRU per cached method with the generated '
+                'capacities, keys (object, argument spelling), nested cached calls with traced keys and receivers, values = mesh-version '
+                'stamps) access_good / C19_history_independent_partial show that in every history WITHOUT in-place modifiers, over any '
+                'number of objects, every query returns the value of the current mesh; C19_history_independent proves the full statement '
+                'for the configuration in which modifiers clear the caches, which the tree does not implement: the decided counterexamples '
+                'C19_stale_lru / C19_stale_nested / C19_eviction_refreshes are replayed on the real code and listed as open known findings. '
+                'Tie: traced nested-call graph + per-query cache hit/miss counts of random interleavings must equal the model\'s.',
+        'note': 'functools.lru_cache semantics assumed (LRU, insert after return, key spelling); stored derived variables '
+                '(volume/area/metric) and user-data-untouched are checked by the oracle (fresh-mesh comparison, snapshots), not by the model',
+        'technique': 'Lean 4 proof (freshness invariant over nested LRU accesses and histories) + traced call graph + differential hit/miss correspondence',
+        'design': '4/C19',
+    },
 }
 
 PENDING_REASON = 'no check registered in this revision yet (model/proofs under construction, see DESIGN.md section 4)'
